@@ -273,7 +273,9 @@ def evaluate(case: Dict[str, Any], base: pathlib.Path) -> Dict[str, Any]:
             n_target += 1
             if ln == 1:
                 target_line1 = True
-                res["classes"].append("own-error-on-line-1" + ("-col>1" if col > 1 else ""))
+                res["classes"].append("own-error-on-line-1")
+                if col > 1:
+                    res["classes"].append("own-error-on-line-1-col>1")
         if (ln, col) in ok_set and 1 <= col <= len(line) + 1:
             continue
         if text[:1] in (" ", "\t"):
@@ -332,7 +334,7 @@ def evaluate(case: Dict[str, Any], base: pathlib.Path) -> Dict[str, Any]:
 
 
 def shard(ctx: runner.Ctx) -> None:
-    n = ctx.n(2_000, 100_000)
+    n = ctx.n(1_600, 100_000)
 
     def one(case: Dict[str, Any]) -> None:
         res = evaluate(case, ctx.scratch)
